@@ -123,7 +123,7 @@ def gen_case(rng, prop='C19'):
                        'classmethod', 'classmethod_via_instance', 'staticmethod', 'wrapped', 'async', 'generator', 'lambda',
                        'method_of_falsy_instance', 'instance_with_name', 'instance_static_call'])
     # (a plain function may call its first parameter what validate/isvalid call theirs)
-    spec = gen_spec(rng, hostile_names=(['func', 'args', 'kwds'] if kind == 'func' else None))
+    spec = gen_spec(rng, hostile_names=(['func', 'kwds'] if kind == 'func' else None))
     case = {'spec': spec, 'kind': kind, 'seed': rng.randrange(1 << 30)}
     if kind == 'wrapped':
         case['wspec'] = gen_spec(rng)
